@@ -185,14 +185,15 @@ pub fn exec_oracle(kind: &str, fields: &[&str]) -> String {
             let kind = fields[0];
             let spec = crate::exec::CtxSpec {
                 kind: kind.to_string(),
-                resources: vec![("m:x".to_string(), "addone".to_string())],
-                users: vec![("m:x".to_string(), "u:add2".to_string()), ("geo:in".to_string(), "u:add2".to_string()), ("n:c".to_string(), "u:add2".to_string())],
+                // (`noop` is taken by a user's operator that adds 2: the body of `m:n` means that operator)
+                resources: vec![("m:x".to_string(), "addone".to_string()), ("m:n".to_string(), "noop".to_string()), ("m:p".to_string(), "noop | addone".to_string())],
+                users: vec![("m:x".to_string(), "u:add2".to_string()), ("geo:in".to_string(), "u:add2".to_string()), ("n:c".to_string(), "u:add2".to_string()), ("noop".to_string(), "u:add2".to_string())],
             };
             let data = vec![Coor4D([55., 12., 0., 0.])];
             crate::exec::with_ctx(&spec, |ctx| {
                 // (the built-in adaptor macros are in the contexts made by `new()` only)
                 let adaptor = if kind.ends_with("new") { Some(12f64.to_radians()) } else { None };
-                for (def, want) in [("m:x", Some(56.0)), ("addone | m:x", Some(57.0)), ("geo:in", adaptor), ("n:c", None), ("addone | n:c", None)] {
+                for (def, want) in [("m:x", Some(56.0)), ("addone | m:x", Some(57.0)), ("geo:in", adaptor), ("n:c", None), ("addone | n:c", None), ("noop", Some(57.0)), ("m:n", Some(57.0)), ("m:n inv", Some(53.0)), ("addone | m:n", Some(58.0)), ("m:p", Some(58.0))] {
                     match (ctx.op(def), want) {
                         (Ok(op), Some(w)) => {
                             let mut d = data.clone();
